@@ -371,7 +371,31 @@ def routing_op(ctx, taped: bool):
     B = rng.choice([1, 2])
     params = dict(num_loc=n, prize_type=ptype, max_length=ml)
     ctx.count(f"op:{ptype}:{'tape' if taped else 'real'}")
-    model_err = ask(ctx, [f"gen.opprize {['const', 'unif', 'dist'].index(ptype)} | 1 2"])[0]["err"] == "1"
+    if taped and ptype in ("const", "unif"):
+        with quiet():
+            g = OPGenerator(**params)
+        with Tape(rng) as tp:
+            with quiet():
+                td = g([B])
+        if ptype == "const":
+            draws = [0] * (B * n)
+            if any(e["kind"] == "randint" for e in tp.log):
+                ctx.disagreement("op: prize_type='const' draws integers", {"params": params, "seq": tp.seq()})
+        else:
+            es = [e for e in tp.log if e["kind"] == "randint"]
+            if len(es) != 1 or (es[0]["lo"], es[0]["hi"]) != (0, 100) or len(es[0]["v"]) != B * n:
+                ctx.disagreement("op: prize_type='unif' vs randint(0, 100)", {"params": params, "seq": tp.seq()})
+                return
+            draws = es[0]["v"]
+        r = ask(ctx, [f"gen.opprize {0 if ptype == 'const' else 1} | " + " ".join(map(str, draws))])[0]
+        exp = [float(np.float32(v) / np.float32(100)) for v in ints(r["prize"])]
+        if td["prize"].flatten().tolist() != exp:
+            ctx.disagreement(f"op: prize ({ptype}) vs Gen.opPrize100", {"params": params, "real": td["prize"].flatten().tolist()[:5], "model": exp[:5]})
+        check_keys(ctx, "op", td, {"locs": (n, 2), "depot": (2,), "prize": (n,), "max_length": ()}, B, params)
+        check_bounds(ctx, "op", "prize", td["prize"], 0.01 - 1e-7, 1.0, params)
+        tape_coords(ctx, "op", tp.take("rand"), torch.cat((td["depot"][:, None], td["locs"]), 1), 0.0, 1.0, params)
+        ctx.case(("op-tape", ptype, n, tuple(draws[:6]), tuple(tp.take("rand")["k"][:4])))
+        return
     if taped and ptype == "dist":
         # integral point sets: exact distances; prize = (1 + int(d/dmax·99)) / 100
         pts = [geom.gen_points(rng, n + 1) for _ in range(B)]
@@ -412,11 +436,9 @@ def routing_op(ctx, taped: bool):
         err = None
     except Exception as e:  # noqa: BLE001
         err = f"{type(e).__name__}: {e}"
-    if (err is not None) != model_err:
-        ctx.disagreement("op: generator raises ≠ model", {"params": params, "real_error": err, "model_err": model_err})
-    if err is not None:
+    if err is not None:   # the model (Gen.opPrize100) is total: every documented prize type yields prizes
         V(ctx, f"op-prize-type-{ptype}-raises",
-                      f"OPGenerator(prize_type='{ptype}') raises {err}: the documented prize types 'const' and 'unif' cannot be generated",
+                      f"OPGenerator(prize_type='{ptype}') raises {err}: a documented prize type cannot be generated",
                       {"params": params})
         ctx.case(("op-real-err", ptype, n))
         return
@@ -493,8 +515,8 @@ def run_routing(ctx):
                     td3 = CVRPGenerator(num_loc=n, min_loc=2.0, max_loc=3.0, depot_distribution=dname)([2])
                 check_bounds(ctx, f"cvrp[depot={dname}]", "depot", td3["depot"], 2.0, 3.0, dict(params, min_loc=2.0, max_loc=3.0, depot_distribution=dname))
                 m = Fraction(td3["depot"][0, 0].item()) * 2
-                if dname == "center" and m != 3 - 2:
-                    ctx.disagreement("center sampler vs Gen.centerTwice", {"real": float(m) / 2, "model": 0.5})
+                if dname == "center" and m != 3 + 2:   # Gen.centerTwice lo hi = hi + lo
+                    ctx.disagreement("center sampler vs Gen.centerTwice", {"real": float(m) / 2, "model": 2.5})
             ctx.count(f"sampler:{dname}")
             ctx.case(("sampler", str(dname), n, seed))
 
@@ -1167,11 +1189,8 @@ def run_mcp(ctx):
             lines = []
             for r_ in range(B * n_sets):
                 items = items_e["v"][r_ * m:(r_ + 1) * m]
-                lines.append(f"gen.mcprow {mx} {sizes[r_]} | " + " ".join(map(str, items)))
-            reps = ask(ctx, lines)
-            model_err = any(r["err"] == "1" for r in reps)
-            if model_err != (err is not None):
-                ctx.disagreement("mcp: generator raises ≠ Gen.mcpRow", {"params": params, "sizes": sizes, "real_error": err})
+                lines.append(f"gen.mcprow {sizes[r_]} | " + " ".join(map(str, items)))
+            reps = ask(ctx, lines)   # the model (Gen.mcpRow) is total: a raise of the real generator is a violation, reported below
             if err is None:
                 mem = td["membership"].reshape(B * n_sets, -1)
                 for r_, r in enumerate(reps):
@@ -1185,7 +1204,7 @@ def run_mcp(ctx):
             ctx.count("mcp:real:" + ("raises" if err else "ok"))
         if err is not None:
             V(ctx, "mcp-generator-shape-error",
-                          f"MCPGenerator raises for a valid configuration: {err[:120]} (cutoffs_masks uses self.max_size, membership the sampled maximum)",
+                          f"MCPGenerator raises for a valid configuration: {err[:120]}",
                           {"params": params, "seed": None if taped else seed, "taped": taped})
         else:
             S = td["membership"].shape[-1]
@@ -1306,8 +1325,11 @@ def run_solvable(ctx):
                         row = solo
                 ctx.count(f"solvable:{name}:{status}")
                 if status != "done":
-                    V(ctx, f"{name}-episode-{status}", f"mask-confined episode ({policy} policy) on a generated {name} instance: {status} "
-                                  f"after {steps} steps ({row})", dict(witness, policy=policy))
+                    key = f"{name}-episode-{status}"
+                    if name == "svrp" and status == "raises" and len(gp.get("tech_costs", [1, 2, 3])) == 1 and "out of bounds" in str(row):
+                        key += ":single-technician:index-out-of-bounds"   # the one listed environment defect; anything else stays unlisted
+                    V(ctx, key, f"mask-confined episode ({policy} policy) on a generated {name} instance: {status} "
+                                f"after {steps} steps ({row})", dict(witness, policy=policy))
                 ctx.case(("solv", name, tuple(sorted((k, str(v)) for k, v in gp.items())), seed, policy))
 
 
@@ -1639,7 +1661,7 @@ def run_npz(ctx):
                     with quiet():
                         td = env.generator([B])
                 except RuntimeError:
-                    ctx.count("npz:generator-raised(mcp finding)")
+                    ctx.count("npz:generator-raised")
                     continue
                 path = os.path.join(tmp, f"{name}.npz")
                 compress = rng.random() < 0.5
@@ -1660,7 +1682,9 @@ def run_npz(ctx):
                 except Exception as e:  # noqa: BLE001
                     diff = f"raises {type(e).__name__}: {str(e)[:100]}"
                 if diff:
-                    key = f"{name}-load-data-changes-generator-output"
+                    kind = ("demand-shape-B-B-n" if diff == f"shape of demand: {(B, gp.get('num_loc'))} vs {(B, B, gp.get('num_loc'))}"
+                            else "demand-values" if diff == "values of demand" else "other")
+                    key = f"{name}-load-data-changes-generator-output:{kind}"
                     V(ctx, key, f"{type(env).__name__}.load_data on a saved generator batch does not give the batch back: {diff}",
                                   {"env": name, "generator_params": gp, "seed": seed, "B": B})
                     continue
@@ -1868,7 +1892,7 @@ def run_ckpt(ctx):
                 ctx.count(f"ckpt:{bl}:load-ok")
             except Exception as e:  # noqa: BLE001
                 ctx.count(f"ckpt:{bl}:load-raises")
-                V(ctx, "ckpt-load-from-checkpoint-raises",
+                V(ctx, f"ckpt-load-from-checkpoint-raises:{type(e).__name__}:{'weights-only' if 'Weights only load failed' in str(e) else 'other'}",
                               f"REINFORCE.load_from_checkpoint(path) raises {type(e).__name__} (baseline={bl}): torch.load defaults to weights_only=True "
                               f"while the checkpoint pickles env/policy hyper-parameters", witness)
             # (b) with torch.load forced to weights_only=False (what the code relied on before torch 2.6)
@@ -1939,8 +1963,7 @@ register(Unit("C18", "gen_routing", run_routing, drivers=["drv_gen"], lean_modul
                   T("Rl4co.Gen.max_lengths_pos", "proved", "decide: MAX_LENGTHS entries positive, tables non-empty"),
                   T("Rl4co.Gen.affInt_range", "proved", "⌊lo + u(hi−lo)⌋ + add ∈ [lo+add, hi+add] (≤ hi+add−1 if lo<hi) for every draw u ∈ [0,1)"),
                   T("Rl4co.Gen.coord_in_bounds", "proved", "min_loc ≤ coordinate ≤ max_loc for every draw"),
-                  T("Rl4co.Gen.center_in_bounds_counterexample", "proved", "¬(the 'center' constant lies in [min_loc, max_loc]): it is (max−min)/2 (known finding)"),
-                  T("Rl4co.Gen.center_in_bounds_partial", "partial", "in bounds iff 3·min_loc ≤ max_loc (e.g. the default min_loc = 0)"),
+                  T("Rl4co.Gen.center_in_bounds", "proved", "the 'center' constant (high+low)/2 lies in [min_loc, max_loc] for every box (fixed upstream 4726d9c)"),
                   T("Rl4co.Gen.cvrp_demand_range", "proved", "integer demand ∈ [min_demand, max_demand] for every draw (1 ≤ min ≤ max)"),
                   T("Rl4co.Gen.cvrp_demand_le_capacity", "proved", "default range + regenerated table: demand/capacity ≤ 1 for every num_loc (incl. off-table) and draw"),
                   T("Rl4co.Gen.cvrp_demand_fits_of_cap", "proved", "any capacity (override) ≥ max_demand keeps demand/capacity ≤ 1"),
@@ -1948,8 +1971,7 @@ register(Unit("C18", "gen_routing", run_routing, drivers=["drv_gen"], lean_modul
                   T("Rl4co.Gen.pctsp_ranges", "proved", "PCTSP penalty / deterministic / stochastic prize ranges"),
                   T("Rl4co.Gen.svrp_skill_le_best", "proved", "SVRP: required skill ≤ best technician"),
                   T("Rl4co.Gen.op_prize_range", "proved", "OP prize_type='dist': prize ∈ [0.01, 1]"),
-                  T("Rl4co.Gen.op_prize_total_counterexample", "proved", "¬(every documented prize type yields prizes): 'const'/'unif' raise (known finding)"),
-                  T("Rl4co.Gen.op_prize_total_partial", "partial", "prize_type='dist' always yields prizes"),
+                  T("Rl4co.Gen.op_prize_total", "proved", "every documented prize type (const, unif, dist) yields prizes in [0.01, 1] for every admissible draw (fixed upstream a68723b)"),
                   T("Rl4co.Gen.pdp_even", "proved", "PDP/MDCPDP: emitted num_loc is even, n ≤ · ≤ n+1"),
                   T("Rl4co.Gen.pdp_pairing", "proved", "pickup i ↦ delivery i+N/2 is a bijection {1..N/2} → {N/2+1..N}"),
               ],
@@ -1995,9 +2017,7 @@ register(Unit("C18", "gen_sched", run_sched, drivers=["drv_gen"], lean_modules=[
               assumptions=[GEN_NOTE, PARAM_NOTE, "argsort of the shuffling draws is an input permutation (ties outside the model)"]))
 register(Unit("C18", "gen_mcp", run_mcp, drivers=["drv_gen"], lean_modules=[P18 + "Routing"],
               theorems=[
-                  T("Rl4co.Gen.mcp_gen_total_counterexample", "proved", "¬(a membership row comes out for every draw of set sizes): width mismatch (known finding)"),
-                  T("Rl4co.Gen.mcp_gen_total_partial", "partial", "generation succeeds iff the largest sampled size equals max_size (or is 1)"),
-                  T("Rl4co.Gen.mcp_row_eq_intended", "proved", "when it succeeds the row is the one the docstring describes"),
+                  T("Rl4co.Gen.mcp_gen_total", "proved", "for every draw a membership row of the sampled width comes out, without repeated items, listing only the first `size` drawn items (fixed upstream 202be23)"),
                   T("Rl4co.Gen.mcp_clamp_range", "proved", "set sizes / weights clamp into [min, max]"),
                   T("Rl4co.Gen.removeRepeat_nodup", "proved", "no item listed twice in a membership row"),
               ],
